@@ -40,6 +40,20 @@ impl Rng {
 }
 
 const CAPS: &[usize] = &[1, 1, 2, 2, 2, 3, 3, 4, 5, 7, 8];
+/// capacities of the extended ("x") families: non-powers of two, ring seams at 16/32/64, chunk and slab boundaries
+pub const CAPS_X: &[usize] = &[1, 2, 3, 5, 6, 7, 8, 15, 16, 17, 31, 33, 64];
+
+/// batch size: the classic 1..=4, or (extended families) up to 40 with a third of the mass at 16..=40
+pub fn batch_k(rng: &mut Rng, big: bool) -> usize {
+  if !big {
+    return rng.range(1, 4);
+  }
+  match rng.weighted(&[40, 30, 30]) {
+    0 => rng.range(1, 4),
+    1 => rng.range(5, 16),
+    _ => rng.range(16, 40),
+  }
+}
 
 #[derive(Clone, Copy)]
 pub struct Fl {
@@ -102,10 +116,11 @@ struct SeqState {
   next_s: usize,
   next_r: usize,
   sent_once: bool,
+  big: bool,
 }
 
 impl SeqState {
-  fn new(f: Fl, cap: usize) -> SeqState {
+  fn new(f: Fl, cap: usize, big: bool) -> SeqState {
     let h = |n: &str, a: bool| HS { name: n.into(), is_async: a, closed: false, alive: true, lag: 0 };
     SeqState {
       f,
@@ -117,6 +132,7 @@ impl SeqState {
       next_s: 1,
       next_r: 1,
       sent_once: false,
+      big,
     }
   }
   fn vals(&mut self, k: usize) -> Vec<u32> {
@@ -202,7 +218,7 @@ fn seq_send(st: &mut SeqState, rng: &mut Rng, malformed: bool) -> Option<Op> {
   let w: &[usize] = if st.f.batch { &[30, 26, 12, 12, 10, 10] } else { &[55, 45] };
   let mut form = forms[rng.weighted(w)];
   let k = if form.contains("batch") {
-    if malformed || rng.chance(6) { 0 } else { rng.range(1, 4) }
+    if malformed || rng.chance(6) { 0 } else { batch_k(rng, st.big) }
   } else {
     1
   };
@@ -253,7 +269,7 @@ fn seq_recv(st: &mut SeqState, rng: &mut Rng, malformed: bool) -> Option<Op> {
     w.extend([10, 10, 8, 8]);
   }
   let mut form = forms[rng.weighted(&w)];
-  let n = if form.contains("batch") { if malformed || rng.chance(6) { 0 } else { rng.range(1, 4) } } else { 1 };
+  let n = if form.contains("batch") { if malformed || rng.chance(6) { 0 } else { batch_k(rng, st.big) } } else { 1 };
   let blocking = matches!(form, "recv" | "recv_batch" | "recv_batch_mut");
   let returns = st.avail(ri) > 0 || h.closed || st.senders_gone() || n == 0;
   if blocking && !returns {
@@ -340,15 +356,65 @@ fn seq_admin(st: &mut SeqState, rng: &mut Rng, late: usize) -> Option<Op> {
   }
 }
 
-fn gen_seq(rng: &mut Rng, flavour: &str, cap: usize, thorough: bool) -> Vec<Vec<Op>> {
+/// "Soak": push / pop rounds on `s0` / `r0` (only those two exist yet) that advance ring indices, ticket counters,
+/// chunk and slab positions before the interesting operations: rounds of one batch send of k ≤ min(room, 40) items
+/// followed by batch receives that take them out again (12 %: a remainder of 1..3 stays). `nonblocking`: only
+/// `try_*` forms (setup thread of a concurrent case, manual-poll programs).
+fn soak(st: &mut SeqState, rng: &mut Rng, ops: &mut Vec<Op>, nonblocking: bool) {
+  if !st.f.batch {
+    return;
+  }
+  let rounds = rng.range(1, if st.f.unbounded { 8 } else { 6 });
+  for _ in 0..rounds {
+    let room = st.room();
+    if room == 0 {
+      break;
+    }
+    let k = batch_k(rng, true).min(room).min(40);
+    let vs = st.vals(k);
+    let sform = if nonblocking {
+      *rng.pick(&["try_send_batch", "try_send_batch_mut"])
+    } else {
+      *rng.pick(&["try_send_batch", "send_batch", "try_send_batch_mut", "send_batch_mut"])
+    };
+    ops.push(Op::new(&[sform, "s0", &arg_list(&vs)]));
+    st.push(k);
+    let leave = if rng.chance(12) { rng.range(1, k.min(3)) } else { 0 };
+    let mut left = k - leave.min(k);
+    while left > 0 {
+      let n = if rng.chance(70) { left } else { rng.range(1, left) };
+      let rform = if nonblocking {
+        *rng.pick(&["try_recv_batch", "try_recv_batch_mut"])
+      } else {
+        *rng.pick(&["try_recv_batch", "recv_batch", "try_recv_batch_mut", "recv_batch_mut"])
+      };
+      ops.push(Op::new(&[rform, "r0", &n.to_string()]));
+      st.pop(0, n);
+      left -= n;
+    }
+  }
+}
+
+/// soak prefix for the setup thread of concurrent / manual-poll programs: (ops, next value id)
+pub fn soak_prefix(rng: &mut Rng, flavour: &str, cap: usize) -> (Vec<Op>, u32) {
+  let mut st = SeqState::new(fl(flavour), cap, true);
+  let mut ops = Vec::new();
+  soak(&mut st, rng, &mut ops, true);
+  (ops, st.next_v)
+}
+
+fn gen_seq(rng: &mut Rng, flavour: &str, cap: usize, thorough: bool, big: bool) -> Vec<Vec<Op>> {
   let f = fl(flavour);
   if f.lock {
     let n = rng.range(3, 9);
     return vec![gen_lock_thread(rng, flavour, 0, n, true)];
   }
-  let mut st = SeqState::new(f, cap);
+  let mut st = SeqState::new(f, cap, big);
   let n = rng.range(8, if thorough { 40 } else { 30 });
   let mut ops = Vec::new();
+  if big && rng.chance(65) {
+    soak(&mut st, rng, &mut ops, false);
+  }
   for i in 0..n {
     let late = (i * 100) / n;
     let malformed = rng.chance(7);
@@ -372,7 +438,11 @@ fn gen_seq(rng: &mut Rng, flavour: &str, cap: usize, thorough: bool) -> Vec<Vec<
 
 // ---------------------------------------------------------------- concurrent programs
 
-fn sender_ops(rng: &mut Rng, f: Fl, h: &str, is_async: bool, n: usize, next_v: &mut u32, out: &mut Vec<Op>) {
+pub fn sender_ops(rng: &mut Rng, f: Fl, h: &str, is_async: bool, n: usize, next_v: &mut u32, out: &mut Vec<Op>) {
+  sender_ops_k(rng, f, h, is_async, n, next_v, out, 3)
+}
+
+pub fn sender_ops_k(rng: &mut Rng, f: Fl, h: &str, is_async: bool, n: usize, next_v: &mut u32, out: &mut Vec<Op>, kmax: usize) {
   let _ = is_async;
   for _ in 0..n {
     if f.oneshot {
@@ -392,7 +462,7 @@ fn sender_ops(rng: &mut Rng, f: Fl, h: &str, is_async: bool, n: usize, next_v: &
     let w: &[usize] = if f.batch { &[38, 18, 12, 8, 6, 5, 5, 3, 2, 3] } else { &[55, 28, 6, 4, 3, 4] };
     let form = forms[rng.weighted(w)];
     if form.contains("send") {
-      let k = if form.contains("batch") { rng.range(1, 3) } else { 1 };
+      let k = if form.contains("batch") { rng.range(1, kmax) } else { 1 };
       let vs: Vec<u32> = (0..k).map(|_| { let v = *next_v; *next_v += 1; v }).collect();
       if form.contains("batch") {
         out.push(Op::new(&[form, h, &arg_list(&vs)]));
@@ -407,7 +477,11 @@ fn sender_ops(rng: &mut Rng, f: Fl, h: &str, is_async: bool, n: usize, next_v: &
   }
 }
 
-fn receiver_ops(rng: &mut Rng, f: Fl, h: &str, is_async: bool, n: usize, out: &mut Vec<Op>) {
+pub fn receiver_ops(rng: &mut Rng, f: Fl, h: &str, is_async: bool, n: usize, out: &mut Vec<Op>) {
+  receiver_ops_k(rng, f, h, is_async, n, out, 3)
+}
+
+pub fn receiver_ops_k(rng: &mut Rng, f: Fl, h: &str, is_async: bool, n: usize, out: &mut Vec<Op>, kmax: usize) {
   for _ in 0..n {
     if f.oneshot {
       out.push(Op::new(&[*rng.pick(&["recv", "recv", "try_recv", "is_closed", "close"]), h]));
@@ -425,7 +499,7 @@ fn receiver_ops(rng: &mut Rng, f: Fl, h: &str, is_async: bool, n: usize, out: &m
     }
     let form = forms[rng.weighted(&w)];
     if form.contains("batch") {
-      out.push(Op::new(&[form, h, &rng.range(1, 3).to_string()]));
+      out.push(Op::new(&[form, h, &rng.range(1, kmax).to_string()]));
     } else {
       out.push(Op::new(&[form, h]));
     }
@@ -433,6 +507,12 @@ fn receiver_ops(rng: &mut Rng, f: Fl, h: &str, is_async: bool, n: usize, out: &m
 }
 
 fn gen_conc(rng: &mut Rng, flavour: &str, cap: usize, thorough: bool) -> Vec<Vec<Op>> {
+  gen_conc_with(rng, flavour, cap, thorough, Vec::new(), 1, 3)
+}
+
+/// `pre`: operations the setup thread runs after the clones (soak), `next_v0`: first unused value id,
+/// `kmax`: largest batch of the threads
+pub fn gen_conc_with(rng: &mut Rng, flavour: &str, cap: usize, thorough: bool, pre: Vec<Op>, next_v0: u32, kmax: usize) -> Vec<Vec<Op>> {
   let f = fl(flavour);
   let max_ops = if thorough { 6 } else { 4 };
   if f.lock {
@@ -453,11 +533,14 @@ fn gen_conc(rng: &mut Rng, flavour: &str, cap: usize, thorough: bool) -> Vec<Vec
     };
     *rng.pick(&opts)
   };
-  let mut next_v = 1u32;
+  let mut next_v = next_v0;
   let mut setup: Vec<Op> = Vec::new();
   let base_async = f.asyn && !f.oneshot;
   let mut snames = vec!["s0".to_string()];
   let mut rnames = vec!["r0".to_string()];
+  // (the soak runs before the clones: a clone made now would be a second live receiver of a broadcast channel)
+  let soaked = !pre.is_empty();
+  setup.extend(pre);
   for i in 1..ns {
     setup.push(Op::new(&["clone", "s0", &format!("s{}", i)]));
     snames.push(format!("s{}", i));
@@ -467,7 +550,7 @@ fn gen_conc(rng: &mut Rng, flavour: &str, cap: usize, thorough: bool) -> Vec<Vec
     rnames.push(format!("r{}", i));
   }
   // optional prefill by the setup thread (never blocks)
-  if !f.rdv && !f.oneshot && rng.chance(25) {
+  if !f.rdv && !f.oneshot && !soaked && rng.chance(25) {
     let k = rng.range(1, cap.min(3).max(1));
     for _ in 0..k {
       setup.push(Op::new(&["try_send", "s0", &next_v.to_string()]));
@@ -483,7 +566,7 @@ fn gen_conc(rng: &mut Rng, flavour: &str, cap: usize, thorough: bool) -> Vec<Vec
       is_async = !is_async;
     }
     let n = rng.range(1, max_ops);
-    sender_ops(rng, f, s, is_async, n, &mut next_v, &mut p);
+    sender_ops_k(rng, f, s, is_async, n, &mut next_v, &mut p, kmax);
     if !f.oneshot && rng.chance(85) {
       p.push(Op::new(&["drop", s]));
     }
@@ -497,7 +580,7 @@ fn gen_conc(rng: &mut Rng, flavour: &str, cap: usize, thorough: bool) -> Vec<Vec
       is_async = !is_async;
     }
     let n = rng.range(1, max_ops);
-    receiver_ops(rng, f, r, is_async, n, &mut p);
+    receiver_ops_k(rng, f, r, is_async, n, &mut p, kmax);
     if rng.chance(85) {
       p.push(Op::new(&["drop", r]));
     }
@@ -509,12 +592,16 @@ fn gen_conc(rng: &mut Rng, flavour: &str, cap: usize, thorough: bool) -> Vec<Vec
 // ---------------------------------------------------------------- manual-poll programs
 
 fn gen_async(rng: &mut Rng, flavour: &str, cap: usize, thorough: bool) -> Vec<Vec<Op>> {
+  gen_async_with(rng, flavour, cap, thorough, Vec::new(), 1)
+}
+
+pub fn gen_async_with(rng: &mut Rng, flavour: &str, cap: usize, thorough: bool, pre: Vec<Op>, next_v0: u32) -> Vec<Vec<Op>> {
   let f = fl(flavour);
   if f.lock {
     return gen_lock_async(rng, flavour);
   }
   let _ = cap;
-  let mut ops: Vec<Op> = Vec::new();
+  let mut ops: Vec<Op> = pre;
   let mut snames = vec!["s0".to_string()];
   let mut rnames = vec!["r0".to_string()];
   if f.s_clone && rng.chance(60) {
@@ -526,7 +613,7 @@ fn gen_async(rng: &mut Rng, flavour: &str, cap: usize, thorough: bool) -> Vec<Ve
     rnames.push("r1".into());
   }
   let two_threads = rng.chance(30);
-  let mut next_v = 1u32;
+  let mut next_v = next_v0;
   let mut next_f = 0usize;
   // live futures: (name, handle, is_send)
   let mut live: Vec<(String, String, bool)> = Vec::new();
@@ -808,6 +895,8 @@ struct Opts {
   lo: usize,
   hi: usize,
   atomics: bool,
+  /// print the generated cases (`#case` + `P` lines) without running them
+  dry: bool,
 }
 
 fn parse_opts(args: &[String]) -> Opts {
@@ -823,6 +912,7 @@ fn parse_opts(args: &[String]) -> Opts {
     lo: 0,
     hi: usize::MAX,
     atomics: false,
+    dry: false,
   };
   let mut i = 1;
   while i < args.len() {
@@ -836,6 +926,11 @@ fn parse_opts(args: &[String]) -> Opts {
       "--jobs" => o.jobs = val(i).parse().unwrap_or(1),
       "--atomics" => {
         o.atomics = true;
+        i += 1;
+        continue;
+      }
+      "--dry" => {
+        o.dry = true;
         i += 1;
         continue;
       }
@@ -877,12 +972,24 @@ pub fn make_case(seed: u64, idx: usize, mode: &str, tier: &str, flavours: &[Stri
   rng.next();
   let flavour = flavours[idx % flavours.len()].clone();
   let f = fl(&flavour);
-  let cap = if f.rdv || f.unbounded || f.oneshot || f.lock { 0 } else { *rng.pick(CAPS) };
+  let nocap = f.rdv || f.unbounded || f.oneshot || f.lock;
+  let mut cap = if nocap { 0 } else { *rng.pick(CAPS) };
   let thorough = tier == "thorough";
-  let programs = match mode {
-    "seq" => gen_seq(&mut rng, &flavour, cap, thorough),
-    "async" => gen_async(&mut rng, &flavour, cap, thorough),
-    _ => gen_conc(&mut rng, &flavour, cap, thorough),
+  // extended ("x") families — size / contention diversity (README "Extended generator families"): about a
+  // quarter of the cases of the flavours that have batches; the rest is the classic generator
+  let ext = f.batch && rng.chance(if thorough { 30 } else { 26 });
+  let mut fam = "";
+  let programs = if ext {
+    let (c, p, name) = crate::genx::gen_x(&mut rng, mode, &flavour, thorough);
+    cap = if nocap { 0 } else { c };
+    fam = name;
+    p
+  } else {
+    match mode {
+      "seq" => gen_seq(&mut rng, &flavour, cap, thorough, false),
+      "async" => gen_async(&mut rng, &flavour, cap, thorough),
+      _ => gen_conc(&mut rng, &flavour, cap, thorough),
+    }
   };
   let multi = programs.len() > 1;
   let strategy = if !multi { "replay" } else if idx % 2 == 0 { "rand" } else { "pct" };
@@ -895,23 +1002,41 @@ pub fn make_case(seed: u64, idx: usize, mode: &str, tier: &str, flavours: &[Stri
     mode: mode.into(),
     programs,
     schedule: None,
-    budget: 20_000,
+    budget: if ext { 60_000 } else { 20_000 },
     prefer: Vec::new(),
     atomics: false,
+    fam: fam.into(),
   }
+}
+
+/// big sequential program (extended family `big`): capacity from `CAPS_X`, batches up to 40, optional soak
+pub fn gen_seq_big(rng: &mut Rng, flavour: &str, cap: usize, thorough: bool) -> Vec<Vec<Op>> {
+  gen_seq(rng, flavour, cap, thorough, true)
 }
 
 pub fn main(args: &[String]) {
   let o = parse_opts(args);
   let worker = args[0] == "worker";
-  if worker || o.jobs <= 1 || o.cases < 8 {
+  if worker || o.jobs <= 1 || o.cases < 8 || o.dry {
     let stdout = std::io::stdout();
     let mut lock = std::io::BufWriter::new(stdout.lock());
     let hi = o.hi.min(o.cases);
     for i in o.lo..hi {
       let mut c = make_case(o.seed, i, &o.mode, &o.tier, &o.flavours);
       c.atomics = o.atomics;
+      if worker && std::env::var("CHANH_TEST_CRASH_AT").ok().and_then(|v| v.parse::<usize>().ok()) == Some(i) {
+        std::process::abort(); // self-test of the parent's crash recovery
+      }
+      if o.dry {
+        let _ = lock.write_all(format!("{}\n{}\n#end\n", c.header(), c.program_lines().join("\n")).as_bytes());
+        continue;
+      }
       let _ = lock.write_all(crate::run_and_render(&c).as_bytes());
+      if worker {
+        // a case that crashes the process (memory unsafety in the code under test) must not take the finished
+        // cases with it: the parent counts the `#end` lines it got and restarts behind the crashed case
+        let _ = lock.flush();
+      }
     }
     let _ = lock.flush();
     return;
@@ -920,13 +1045,8 @@ pub fn main(args: &[String]) {
   let jobs = o.jobs.min(o.cases);
   let exe = std::env::current_exe().expect("current_exe");
   let chunk = (o.cases + jobs - 1) / jobs;
-  let mut kids = Vec::new();
-  for j in 0..jobs {
-    let (lo, hi) = (j * chunk, ((j + 1) * chunk).min(o.cases));
-    if lo >= hi {
-      break;
-    }
-    let child = Command::new(&exe)
+  let spawn = |lo: usize, hi: usize| {
+    Command::new(&exe)
       .arg("worker")
       .args(["--seed", &o.seed.to_string(), "--cases", &o.cases.to_string(), "--tier", &o.tier, "--mode", &o.mode])
       .args(["--flavours", &o.flavours.join(","), "--lo", &lo.to_string(), "--hi", &hi.to_string()])
@@ -934,8 +1054,17 @@ pub fn main(args: &[String]) {
       .stdout(Stdio::piped())
       .stderr(Stdio::inherit())
       .spawn()
-      .expect("spawn worker");
-    kids.push(child);
+      .expect("spawn worker")
+  };
+  let mut kids = Vec::new();
+  let mut ranges = Vec::new();
+  for j in 0..jobs {
+    let (lo, hi) = (j * chunk, ((j + 1) * chunk).min(o.cases));
+    if lo >= hi {
+      break;
+    }
+    kids.push(spawn(lo, hi));
+    ranges.push((lo, hi));
   }
   // drain all pipes concurrently so no worker blocks on a full pipe
   let readers: Vec<std::thread::JoinHandle<Vec<u8>>> = kids
@@ -952,18 +1081,69 @@ pub fn main(args: &[String]) {
   let stdout = std::io::stdout();
   let mut lock = stdout.lock();
   let mut rc = 0;
-  for (r, mut k) in readers.into_iter().zip(kids.into_iter()) {
-    let buf = r.join().unwrap_or_default();
-    let _ = lock.write_all(&buf);
-    match k.wait() {
-      Ok(st) if st.success() => {}
-      Ok(st) => {
-        eprintln!("chanh gen: worker exited with {}", st);
-        rc = 1;
-      }
-      Err(e) => {
-        eprintln!("chanh gen: worker wait failed: {}", e);
-        rc = 1;
+  for ((r, mut k), (lo, hi)) in readers.into_iter().zip(kids.into_iter()).zip(ranges.into_iter()) {
+    let mut buf = r.join().unwrap_or_default();
+    let mut status = k.wait();
+    let mut lo = lo;
+    loop {
+      match &status {
+        Ok(st) if st.success() => {
+          let _ = lock.write_all(&buf);
+          break;
+        }
+        Ok(st) if st.code().is_none() => {
+          // killed by a signal (SIGSEGV / SIGABRT: memory unsafety reached by this case): keep the complete cases,
+          // report the crashed one as a transcript block of its own, restart behind it
+          let text = String::from_utf8_lossy(&buf).to_string();
+          let done = text.lines().filter(|l| l.starts_with("#end")).count();
+          let keep = match text.rfind("#end\n") {
+            Some(i) => &text[..i + 5],
+            None => "",
+          };
+          let _ = lock.write_all(keep.as_bytes());
+          let crashed = lo + done;
+          if crashed >= hi {
+            break;
+          }
+          let c = make_case(o.seed, crashed, &o.mode, &o.tier, &o.flavours);
+          let sig = {
+            use std::os::unix::process::ExitStatusExt;
+            format!("signal-{}", st.signal().unwrap_or(0))
+          };
+          eprintln!("chanh gen: worker died ({}) in case {}; continuing behind it", st, c.id);
+          let _ = lock.write_all(
+            format!(
+              "{}\n{}\nS\nX crash:{}\n!monitor {}:crash:process-killed-by-signal | the worker process died while running this case ({}): memory unsafety in the code under test\n#end\n",
+              c.header(),
+              c.program_lines().join("\n"),
+              sig,
+              c.flavour,
+              st
+            )
+            .as_bytes(),
+          );
+          lo = crashed + 1;
+          if lo >= hi {
+            break;
+          }
+          let mut k2 = spawn(lo, hi);
+          let mut out = k2.stdout.take().unwrap();
+          buf = Vec::new();
+          let _ = out.read_to_end(&mut buf);
+          status = k2.wait();
+        }
+        Ok(st) => {
+          let _ = lock.write_all(&buf);
+          eprintln!("chanh gen: worker exited with {}", st);
+          rc = 1;
+          break;
+        }
+        Err(e) => {
+          let _ = lock.write_all(&buf);
+          eprintln!("chanh gen: worker wait failed: {}", e);
+          rc = 1;
+          break;
+        }
       }
     }
   }
@@ -1005,6 +1185,7 @@ pub fn demo() {
       budget: 20_000,
       prefer: Vec::new(),
       atomics: false,
+      fam: String::new(),
     };
     let _ = lock.write_all(crate::run_and_render(&c).as_bytes());
   }
